@@ -31,7 +31,18 @@ func (l *letGen) field() ast.Expr {
 // value draws a binding value / leaf expression.
 func (l *letGen) value(depth int) ast.Expr {
 	t := l.t
-	switch rapid.IntRange(0, 7).Draw(t, "valkind") {
+	switch rapid.IntRange(0, 10).Draw(t, "valkind") {
+	case 8, 9:
+		// a value that reads the current node without naming it: a bare index,
+		// slice, wildcard, multi-select or filter (a let is re-evaluated for
+		// every element of a projection, and such bindings change with it)
+		return &ast.Chain{Head: ast.Head{Kind: ast.HImplicit}, Steps: gen.Pick(t, "implicitval", [][]ast.Step{
+			{{Kind: ast.SIndex, Index: 0}}, {{Kind: ast.SIndex, Index: 1}}, {{Kind: ast.SIndex, Index: -1}}, {{Kind: ast.SIndex, Index: 0}, {Kind: ast.SIndex, Index: 0}}, {{Kind: ast.SIndex, Index: 255}}, {{Kind: ast.SIndex, Index: 256}},
+			{{Kind: ast.SSlice, Start: ast.I64(1)}}, {{Kind: ast.SSlice, Stop: ast.I64(1)}}, {{Kind: ast.SListStar}}, {{Kind: ast.SFlatten}}, {{Kind: ast.SStar}}, {{Kind: ast.SFilter, Cond: ast.Cur()}},
+			{{Kind: ast.SIndex, Index: 0}, {Kind: ast.SField, Name: "id"}}, {{Kind: ast.SIndex, Index: 0}, {Kind: ast.SMultiList, Items: []ast.Expr{ast.F("id")}}}, {{Kind: ast.SListStar}, {Kind: ast.SMultiHash, Keys: []string{"k"}, Items: []ast.Expr{ast.F("s")}}},
+		})}
+	case 10:
+		return ast.Call(gen.Pick(t, "curfn", []string{"length", "type", "to_array", "not_null", "to_string"}), ast.A(gen.Pick(t, "curarg", []ast.Expr{ast.Cur(), &ast.Chain{Head: ast.Head{Kind: ast.HImplicit}, Steps: []ast.Step{{Kind: ast.SIndex, Index: 0}}}, ast.F("id")})))
 	case 0:
 		return ast.Lit(gen.Scalar(t))
 	case 1:
@@ -63,7 +74,7 @@ func (l *letGen) use(depth int) ast.Expr {
 		return ast.Var(gen.Pick(t, "anyvar", []string{"x", "y", "z", "q"}))
 	}
 	inner := func() ast.Expr {
-		if depth < 3 && rapid.IntRange(0, 3).Draw(t, "nest") == 0 {
+		if depth < 3 && rapid.IntRange(0, 2).Draw(t, "nest") == 0 {
 			return l.let(depth + 1)
 		}
 		return v()
@@ -81,16 +92,16 @@ func (l *letGen) use(depth int) ast.Expr {
 		return ast.F(gen.Pick(t, "callsubject", []string{"s", "a", "aa"})).With(before, ast.Step{Kind: ast.SCall, Name: "not_null", Args: []ast.Arg{ast.A(inner()), ast.A(ast.Cur())}})
 	case 0:
 		return inner()
-	case 1: // projection
-		return ast.F("a").With(ast.Step{Kind: ast.SListStar}, pair(inner()))
+	case 1: // projection (over scalars, arrays or records)
+		return ast.F(gen.Pick(t, "projsubject", []string{"a", "aa", "r", "aa"})).With(ast.Step{Kind: ast.SListStar}, pair(inner()))
 	case 2: // filter
-		return ast.F("a").With(ast.Step{Kind: ast.SFilter, Cond: ast.Bin("==", ast.Cur(), inner())})
+		return ast.F(gen.Pick(t, "filtsubject", []string{"a", "aa", "r"})).With(ast.Step{Kind: ast.SFilter, Cond: ast.Bin("==", ast.Cur(), inner())})
 	case 3: // pipe
 		return ast.Bin("|", l.field(), &ast.Chain{Head: ast.Head{Kind: ast.HMultiList, Items: []ast.Expr{inner(), ast.Cur()}}})
 	case 4: // multi-select hash after a field
 		return ast.F("o").With(ast.Step{Kind: ast.SMultiHash, Keys: []string{"k", "c"}, Items: []ast.Expr{inner(), ast.Cur()}})
 	case 5: // map expression reference
-		return ast.Call("map", ast.Ref(&ast.Chain{Head: ast.Head{Kind: ast.HMultiList, Items: []ast.Expr{inner(), ast.Cur()}}}), ast.A(ast.F("a")))
+		return ast.Call("map", ast.Ref(&ast.Chain{Head: ast.Head{Kind: ast.HMultiList, Items: []ast.Expr{inner(), ast.Cur()}}}), ast.A(ast.F(gen.Pick(t, "mapsubject", []string{"a", "aa", "r"}))))
 	case 6: // sort_by / min_by / max_by / group_by / map with a key that reads the variable for every element
 		key := (&ast.Chain{Head: ast.Head{Kind: ast.HMultiList, Items: []ast.Expr{ast.F("s"), inner()}}}).With(ast.Step{Kind: ast.SIndex, Index: 0})
 		fn := gen.Pick(t, "byfn", []string{"sort_by", "min_by", "max_by", "group_by", "map"})
